@@ -64,6 +64,13 @@ _QUICK_FLOORS = {
     "swapcls.chain.pp,samedim,both_paired,e1,kept": 600, "swapcls.chain.pp,samedim,one_paired,e1,exch": 7000,
     "swapcls.chain.pp,samedim,unpaired,e1,any": 1000, "swapcls.chain.z1.nn,samedim,e1,exch": 400,
     "swapcls.chain.z1.pp,samedim,both_paired,e1,exch": 600,
+    # input classes added after the audit of the harness assumptions (see "rule")
+    "op.swap.args_reversed": 24000, "op.swap_z1.args_reversed": 6000, "cmp.swap_return.ru_id_reversed_unjudged": 10000,
+    "op.swap_z1.ru_id": 2200, "op.swap.chain_pos_nobar": 10000, "op.swap.ru_norem": 15000, "op.swap.chain_rem_vec": 10000,
+    "cmp.row": 850000, "cmp.repcycle": 320000, "cmp.repcycle.family": 37000,
+    "case.general_complex": 1300, "op.swap.general_complex": 23000, "op.insert.empty_boundary_dim_gt0": 1700,
+    "op.insert.non_simplicial_boundary": 1900, "case.small": 950, "state.emptied": 2900, "op.insert.into_emptied": 2400,
+    "op.insert.id_reused": 1500,
 }
 
 SPEC = {
@@ -88,9 +95,36 @@ SPEC = {
             "moved up (chain, identifier indexing); when both hold (two essential bars of one dimension) any value is accepted. "
             "Chain matrices without stored barcode get birth/death comparators answering from the model order and the oracle barcode. "
             "non-trivial = distinct history with >= 4 transpositions, >= 2 of them between cells of equal dimension, >= 1 whose oracle "
-            "outcome is 'exchanged', and >= 1 insertion or removal",
+            "outcome is 'exchanged', and >= 1 insertion or removal. "
+            "Added after the audit of the assumptions: (a) the two-argument swaps (chain with container / identifier indexing and stored "
+            "barcode, RU with identifier indexing) receive the LATER cell first in half of the calls (signature flag 'args=reversed'); "
+            "(b) 1 case in 6 runs on a general Z_2 chain complex (cells of dimension > 0 whose boundary is empty, another cell's "
+            "boundary, or a sum of such cycles; dimensions passed explicitly), 1 case in 8 on a complex of 0-3 cells with as many "
+            "removals as insertions, so that matrices go down to 0 columns and are refilled; chain matrices with explicit ids give a new "
+            "cell (largest live id)+1 in half of the instances, so ids of removed cells come back; (c) instantiations: RU without "
+            "removable columns (4), chain with position indexing and no stored barcode (2; the harness mirrors position -> internal "
+            "column index from the bool returns to decode the comparator arguments), chain with removable columns in a vector "
+            "container (2), can_retrieve_representative_cycles (2 RU + 2 chain); (d) an RU matrix with identifier indexing is "
+            "accompanied by a twin with the same options but position indexing, driven by the same calls, in which the U entry that "
+            "vine_swap_with_z_eq_1_case presupposes is read: so the z=1 swap is exercised there too; (e) with row access, at every full "
+            "observation get_row of every live cell (R and U for RU matrices) == the set of columns having an entry in that row (set of "
+            "column indices where the indexing is native, number of entries behind an overlay; every entry reports the right row "
+            "index); (f) with representative cycles, at every full observation update_representative_cycles, then "
+            "get_representative_cycles has exactly one cycle per bar whose youngest cell is the bar's birth cell, and "
+            "get_representative_cycle(bar) of every bar is a non-empty chain of cells of the bar's dimension with zero boundary over Z_2 "
+            "whose youngest cell is the birth cell",
     "assumptions": [
-        "Z_2 only (the library static_asserts it for vine updates); transpositions are always called as (earlier cell, later cell)",
+        "Z_2 only (the library static_asserts it for vine updates); a chain matrix WITHOUT stored barcode is always called as "
+        "vine_swap(earlier cell, later cell): it keeps no position map, so it cannot know the order of its two arguments",
+        "RU with identifier indexing called with the later cell first: the returned value only has to be one of the two arguments "
+        "(the documentation fixes no convention for that order); called in order, first argument <=> the cells kept their bars",
+        "rows kept in a vector (no removable rows) are only read up to the last row that currently has an entry (rows beyond may not "
+        "be allocated); behind the position / identifier overlays only the number of entries of a row is compared",
+        "chain matrix with position indexing and no stored barcode: remove_last() only when the last cell carries the largest id "
+        "(otherwise the known defect of the container-indexed flavour would fire under another signature), no remove_maximal_cell "
+        "(not offered)",
+        "general chain complexes and emptied matrices are not combined with the batch constructor when a dimension cannot be deduced "
+        "from the boundary size (it has no dimension argument)",
         "RU matrices: rows stay attached to positions (documented: 'the rows also swap IDs'), so the boundary of a cell inserted after "
         "swaps is expressed with the row index of the current position of each face; the row labels of the stored factor U are "
         "accepted in either convention (position or row index) and entries of U in rows of removed cells are ignored",
@@ -102,7 +136,8 @@ SPEC = {
         "once in 12 opportunities when the last cell does not carry the largest identifier (known defect, it ends the case); its "
         "comparators decode their arguments (internal column indices, although documented as positions) with get_pivot, which "
         "restricts this flavour to container indexing",
-        "vine_swap_with_z_eq_1_case is never called for RU with identifier indexing (the U entry it presupposes cannot be read there)",
+        "vine_swap_with_z_eq_1_case for RU with identifier indexing: its precondition is read from a position indexed twin (same "
+        "options and history, natural numbering only; not in the '+gap' configs)",
         "a transposition of two cells carrying two essential bars of the same dimension does not determine the returned value",
         "trusted: oracle/zp_reduce.h and the cell-complex model in c06_world.h",
     ],
@@ -112,16 +147,17 @@ SPEC = {
     "exhaustive": {"quick": False, "thorough": False},
     "manifest": {
         "text": "Runtime monitor: for RU and chain persistence matrices with vine updates (container / position / identifier indexing, with "
-                "and without stored barcode, all 9 column types, removable columns on and off, row access variants: 20 instantiations in "
-                "the quick tier, 52 in the thorough tier) thousands of random histories of adjacent transpositions, z=1 transpositions, "
+                "and without stored barcode, all 9 column types, removable columns on and off, row access variants, representative cycles: "
+                "32 instantiations in the quick tier, 64 in the thorough tier) thousands of random histories of adjacent transpositions, z=1 transpositions, "
                 "insertions, remove_last, remove_maximal_cell (both overloads) and forks onto freshly rebuilt matrices are executed under "
-                "ASan+UBSan; after every single step the stored barcode, the barcode read off the columns, the RU factorisation / chain "
-                "compatibility identities and the truthfulness of the value returned by the swap are compared with an independent textbook "
+                "ASan+UBSan, on simplicial, CW and general Z_2 chain complexes, with two-argument swaps called in both argument orders; after every single step the stored barcode, the barcode read off the columns, the RU factorisation / chain "
+                "compatibility identities, the rows (row access), the representative cycles of all bars (where offered) and the truthfulness of "
+                "the value returned by the swap are compared with an independent textbook "
                 "Z_2 reduction of the current filtration order. Held on what was observed (every reachable class of the vineyard case "
                 "analysis is counted and has a coverage floor), not a proof.",
         "note": "trusted: oracle/zp_reduce.h, the cell-complex model of the harness; identifiers different from positions are exercised "
                 "for chain matrices only (for RU matrices two small witness configs); chain matrices without stored barcode only with "
-                "container indexing and with the id-order restrictions listed in the assumptions",
+                "container / position indexing and with the id-order restrictions listed in the assumptions",
         "technique": "runtime monitoring: randomized operation histories + independent reduction oracle and defining-identity checks after "
                      "every step, under AddressSanitizer/UBSan/_GLIBCXX_ASSERTIONS",
     },
